@@ -188,7 +188,10 @@ class Builder:
             par = m.parent
             log.append(["P", m.path_as_str, m.data_name, enc(m.data), par.path_as_str if par is not None else None,
                         depth])
-            return pred(m)
+            try:
+                return pred(m)
+            finally:
+                log.append(["PX", depth])       # python-only marker: the predicate returned / raised
 
         return Named(w, "L(" + repr(pred) + ")")
 
